@@ -1,12 +1,13 @@
 /-
   PygModel.Eq — model of `pyg_base._eq.eq` and `in_` (src/pyg_base/_eq.py:14-113), written against
-  the repaired code (branch w7: shape test for arrays, dict values compared as tuples, scalar vs
-  container is False).
+  the repaired code (shape test for arrays, dict values compared as tuples, scalar vs container is
+  False, axis labels compared one by one with `eq`, numpy numbers compared as python numbers).
 
   eq(x, y):   x is y                      -> True            (identity is not in the model)
               list / tuple                -> same type, same length, all eq(i, j) of the zip
               ndarray                     -> same type, same shape, all cells eq
               Series / DataFrame          -> same type, eq(index), eq(columns), all cells eq
+              pd.Index (axis labels)      -> eq(list(x), list(y))
               dict                        -> same *exact* type, same length, items sorted by key:
                                              eq(keys) and eq(values)
               float NaN                   -> y is a float NaN
@@ -49,10 +50,10 @@ assumption sampled by correspondence). -/
 def cellEq (a b : Cell) : Bool :=
   if a = .nan then b = .nan else Cell.pyEq a b
 
-/-- `eq(x.index, y.index)` / `eq(x.columns, y.columns)`: two `pd.Index` objects fall through to the
-last branch, `np.all((x == y).__array__())`; `==` of two indexes of different length raises and
-is caught (`False`).  Labels are compared by `==`, i.e. NOT NaN-aware. -/
-def idxEq (i j : List Cell) : Bool := all2 Cell.pyEq i j
+/-- `eq(x.index, y.index)` / `eq(x.columns, y.columns)` (the `pd.Index` branch of the repaired code):
+`eq(list(x), list(y))`, i.e. same number of labels and the labels `eq` one by one - NaN-aware, and
+a string label never equals a datetime label (`Index == Index` used to parse strings into dates). -/
+def idxEq (i j : List Cell) : Bool := all2 cellEq i j
 
 /-- `sorted(x.items())` for distinct string keys: insertion sort on the key -/
 def insertK {α} (kv : String × α) : List (String × α) → List (String × α)
